@@ -1,7 +1,7 @@
 (* PkgHistproof.v — the per-state theorems of C03 / C10 for every state reachable by a history *)
 From Coq Require Import List ZArith Bool Arith Lia.
 Import ListNotations.
-Require Import Package Pkgproof Pkgproof4 Pkgproof5 PkgStepWF PkgStepWF3 PkgStepWF4 PkgPairproof.
+Require Import Package Pkgproof Pkgproof4 Pkgproof5 PkgStepWF PkgStepWF3 PkgStepWF4 PkgPairproof PkgOKstep4.
 Open Scope Z_scope.
 
 Section H.
@@ -15,12 +15,13 @@ Variable kids : xml -> list kid.
 Variable mime : bytes -> mtype.
 Variable mime_bytes : mtype -> bytes.
 Variable rdf0 : bytes.
-Variable mask : xml -> xml.
+Variable proj : Type.
+Variable mask : xml -> proj.
 Hypothesis par_ser : forall x, par (ser x) = x.
 Notation document := (document xml bytes).
 Notation fsys := (fsys bytes kid).
 Notation SInv := (SInv xml bytes kid).
-Notation view := (view xml bytes kid par mask).
+Notation view := (view xml bytes kid par proj mask).
 Notation run := (run xml bytes kid ser par pretty stamp entries with_entries kids mime mime_bytes rdf0 FIXED).
 Notation d_save := (d_save xml bytes kid ser par pretty stamp entries kids mime rdf0 FIXED).
 Notation d_clone := (d_clone xml bytes kid ser par FIXED).
@@ -33,7 +34,32 @@ Theorem roundtrip_reachable : forall (s0 : fsys * document) os, SInv s0 ->
 Proof.
   intros s0 os I t pk pty fs' d' c Hpk Hm Hs Ho n.
   pose proof (run_inv xml bytes kid ser par pretty stamp entries with_entries kids mime mime_bytes rdf0 par_ser os s0 I) as [F W].
-  apply (roundtrip xml bytes kid ser par pretty stamp entries kids mime rdf0 mask par_ser _ _ t pk pty fs' d' c W Hpk Hm Hs Ho).
+  apply (roundtrip xml bytes kid ser par pretty stamp entries kids mime rdf0 proj mask par_ser _ _ t pk pty fs' d' c W Hpk Hm Hs Ho).
+Qed.
+
+(* opening by path or from a buffer (Document(io.BytesIO(...)): every member read at once) *)
+Lemma open_any_view : forall (fs : fsys) p b c, FsOK bytes kid fs -> c_open bytes kid fs p b = Some c ->
+  forall n, view fs (mkD c []) n = file_view xml bytes kid par proj mask (lookup p fs) n.
+Proof.
+  intros fs p b c F O n. unfold Package.view, Package.file_view. destruct (is_dir n); [reflexivity|].
+  change (tree_of xml bytes kid par fs (mkD c []) n) with (dX xml bytes kid par fs (mkD c []) n).
+  change (bytes_of xml bytes kid fs (mkD c []) n) with (dB xml bytes kid fs (mkD c []) n).
+  rewrite (open_obs_X xml bytes kid par fs p b c F O n), (open_obs xml bytes kid fs p b c F O n).
+  destruct (lookup n (file_entries bytes kid (lookup p fs))); destruct (is_xml n); reflexivity.
+Qed.
+
+Theorem roundtrip_reachable_any : forall (s0 : fsys * document) os, SInv s0 ->
+  forall t pk pty fs' d' b c, pk <> PXml -> (pty = true -> forall x, mask (pretty x) = mask x) ->
+  d_save (fst (run s0 os)) (snd (run s0 os)) t pk pty = (fs', d', true) ->
+  c_open bytes kid fs' (tgt_id t) b = Some c ->
+  forall n, view fs' (mkD c []) n = view (fst (run s0 os)) d' n.
+Proof.
+  intros s0 os I t pk pty fs' d' b c Hpk Hm Hs Ho n.
+  pose proof (run_inv xml bytes kid ser par pretty stamp entries with_entries kids mime mime_bytes rdf0 par_ser os s0 I) as [F W].
+  pose proof (d_save_inv xml bytes kid ser par pretty stamp entries kids mime rdf0 _ _ t pk pty (conj F W)) as I'. cbn zeta in I'.
+  rewrite Hs in I'. cbn [fst snd] in I'. destruct I' as [F' _].
+  rewrite (open_any_view fs' (tgt_id t) b c F' Ho).
+  apply (save_file_is_memory xml bytes kid ser par pretty stamp entries kids mime rdf0 proj mask par_ser _ _ t pk pty fs' d' W Hpk Hm Hs).
 Qed.
 
 Theorem save_pure_reachable : forall (s0 : fsys * document) os, SInv s0 -> (forall x, mask (stamp x) = mask x) ->
@@ -42,7 +68,7 @@ Theorem save_pure_reachable : forall (s0 : fsys * document) os, SInv s0 -> (fora
 Proof.
   intros s0 os I Hst t pk pty fs' d' Hs n Hn.
   pose proof (run_inv xml bytes kid ser par pretty stamp entries with_entries kids mime mime_bytes rdf0 par_ser os s0 I) as [F W].
-  apply (save_pure xml bytes kid ser par pretty stamp entries kids mime rdf0 mask Hst _ _ t pk pty fs' d' W Hs n Hn).
+  apply (save_pure xml bytes kid ser par pretty stamp entries kids mime rdf0 proj mask Hst _ _ t pk pty fs' d' W Hs n Hn).
 Qed.
 
 Theorem clone_equal_at_birth_reachable : forall (s0 : fsys * document) os, SInv s0 ->
@@ -51,6 +77,6 @@ Theorem clone_equal_at_birth_reachable : forall (s0 : fsys * document) os, SInv 
 Proof.
   intros s0 os I.
   pose proof (run_inv xml bytes kid ser par pretty stamp entries with_entries kids mime mime_bytes rdf0 par_ser os s0 I) as [F W].
-  apply (clone_equal_at_birth xml bytes kid ser par mask par_ser _ _ F W).
+  apply (clone_equal_at_birth xml bytes kid ser par proj mask par_ser _ _ F W).
 Qed.
 End H.
